@@ -30,6 +30,12 @@ func init() {
 }
 
 var errC18Plain = errors.New("c18 plain error")
+
+// c18MultiErr is a plain (non-fatal) error whose dynamic type is not comparable.
+type c18MultiErr []error
+
+func (m c18MultiErr) Error() string { return fmt.Sprintf("%d errors", len(m)) }
+
 var errC18Base = errors.New("c18 fatal base error")
 
 type c18Obs struct {
@@ -76,6 +82,9 @@ func runC18Script(c *core.Ctx, s c18Script, maxSlot map[int]int64) {
 			afterEnd++
 		}
 		if calls <= s.k {
+			if calls%3 == 2 {
+				return resultOf(calls), c18MultiErr{errC18Plain, errC18Base} // plain error of an uncomparable type
+			}
 			return resultOf(calls), errC18Plain
 		}
 		ended = true
